@@ -366,7 +366,7 @@ fn qcases(thorough: bool) -> Vec<QCase> {
         }
         for tracing in [false, true] {
             for comp in 0..3u8 {
-                let n_var = if thorough { 5 } else { 1 };
+                let n_var = if thorough { 10 } else { 1 };
                 for _ in 0..n_var {
                     variant = variant.wrapping_add(1);
                     out.push(QCase { kind, subset, vals, cons, text, mid, tracing, comp, variant });
@@ -910,7 +910,7 @@ fn run_bcase_adapter(cx: &Ctx, c: &BCase) {
 fn bcases(thorough: bool) -> Vec<BCase> {
     let mut out = Vec::new();
     let mut variant = 0u16;
-    for n in 0..=3usize {
+    for n in 0..=(if thorough { 4usize } else { 3 }) {
         // all prepared/unprepared mixes x all value-list alternatives per statement
         let shapes = 6usize.pow(n as u32);
         for shape in 0..shapes {
@@ -931,6 +931,10 @@ fn bcases(thorough: bool) -> Vec<BCase> {
                         for cons in 0..11u8 {
                             // the additional mismatch shapes (modes 3..) do not multiply with every consistency / option subset in the quick tier
                             if count_mode >= 3 && !thorough && !(cons == 1 && (opt == 0 || opt == 3)) {
+                                continue;
+                            }
+                            // four-statement batches (thorough only): one consistency, two option subsets
+                            if n == 4 && !(cons == 1 && (opt == 0 || opt == 3)) {
                                 continue;
                             }
                             if thorough {
@@ -1255,7 +1259,7 @@ fn main() {
         vcore::machinery_error(&format!("vacuity: expected all 64/64/4 flag bytes to be produced, saw {q_flags}/{e_flags}/{b_flags}"));
     }
     drop(cx);
-    r.set_rule("E-ENUM. QUERY and EXECUTE (ExecuteV2 with/without result-metadata id; deprecated Execute): all 64 subsets of {values, skip_metadata, page size, paging state, serial consistency, timestamp} x value lists {1 and 2 values over value/null/unset, 65535 values, empty+70000-byte value} x all 11 consistencies x texts {0,1,multi-byte,65535,65536 bytes} / ids {0,1,16,65535 bytes} x tracing x {none,LZ4,Snappy}; field contents (page size, paging state, serial, timestamp, stream id) rotate through boundary alphabets (thorough: 5 rotations each, all consistencies for the huge shapes; quick: huge shapes at 3 consistencies). BATCH: 3 types x every 0..3-statement mix of prepared/unprepared x {0,1,2 values} per statement x {equal; short by 1 / 2 / all; surplus non-empty / empty / empty+non-empty / non-empty+empty / 3 empty value lists -> refused exactly when counts differ} x 4 optional-field subsets x 11 consistencies (thorough: x tracing x compression; quick: rotating); 65535 statements accepted, 65536 refused; every BATCH shape both with pre-serialized value lists and through RawBatchValuesAdapter (typed BatchValues + serialization contexts). Value lists of {0,1,65534,65535,65536,65537,131071,131072} values through every public builder (SerializeRow for Vec / slice / Box / & / HashMap and BTreeMap with String and &str keys via from_serializable, from_closure with cell writers and with appended pre-built rows, add_value loop, null/unset cells, BATCH through RawBatchValuesAdapter and through pre-serialized lists): refusal, or announced count == encoded cells == bound values in the QUERY, EXECUTE and BATCH frames. Bind-marker count vs value count: 0..4 markers x 0..6 values through Vec / slice / Box / & / HashMap / BTreeMap (String and &str keys) / tuples / RawBatchValuesAdapter: refusal unless the counts agree, then exactly the bound values in order. PREPARE, STARTUP (incl. 65535-byte keys, 65535 options; 65536 refused), REGISTER (all subsets, both structs), OPTIONS, AUTH_RESPONSE (null/empty/short/70000 bytes). Thorough adds > 2 GiB strings/bytes (must be errors). Oracle: header (version 4, opcode, stream, flags == options used, length == body size), body parsed by cqlref::proto equals the request in order, compressed body decompresses (cqlref's own LZ4/Snappy decoders) to the uncompressed serialization. distinct_nontrivial = frames with >= 2 optional fields or compression, multi-statement batches, refusals, small requests.");
+    r.set_rule("E-ENUM. QUERY and EXECUTE (ExecuteV2 with/without result-metadata id; deprecated Execute): all 64 subsets of {values, skip_metadata, page size, paging state, serial consistency, timestamp} x value lists {1 and 2 values over value/null/unset, 65535 values, empty+70000-byte value} x all 11 consistencies x texts {0,1,multi-byte,65535,65536 bytes} / ids {0,1,16,65535 bytes} x tracing x {none,LZ4,Snappy}; field contents (page size, paging state, serial, timestamp, stream id) rotate through boundary alphabets (thorough: 10 rotations each, all consistencies for the huge shapes; quick: huge shapes at 3 consistencies). BATCH: 3 types x every 0..3-statement mix (thorough: 0..4) of prepared/unprepared x {0,1,2 values} per statement x {equal; short by 1 / 2 / all; surplus non-empty / empty / empty+non-empty / non-empty+empty / 3 empty value lists -> refused exactly when counts differ} x 4 optional-field subsets x 11 consistencies (thorough: x tracing x compression; quick: rotating); 65535 statements accepted, 65536 refused; every BATCH shape both with pre-serialized value lists and through RawBatchValuesAdapter (typed BatchValues + serialization contexts). Value lists of {0,1,65534,65535,65536,65537,131071,131072} values through every public builder (SerializeRow for Vec / slice / Box / & / HashMap and BTreeMap with String and &str keys via from_serializable, from_closure with cell writers and with appended pre-built rows, add_value loop, null/unset cells, BATCH through RawBatchValuesAdapter and through pre-serialized lists): refusal, or announced count == encoded cells == bound values in the QUERY, EXECUTE and BATCH frames. Bind-marker count vs value count: 0..4 markers x 0..6 values through Vec / slice / Box / & / HashMap / BTreeMap (String and &str keys) / tuples / RawBatchValuesAdapter: refusal unless the counts agree, then exactly the bound values in order. PREPARE, STARTUP (incl. 65535-byte keys, 65535 options; 65536 refused), REGISTER (all subsets, both structs), OPTIONS, AUTH_RESPONSE (null/empty/short/70000 bytes). Thorough adds > 2 GiB strings/bytes (must be errors). Oracle: header (version 4, opcode, stream, flags == options used, length == body size), body parsed by cqlref::proto equals the request in order, compressed body decompresses (cqlref's own LZ4/Snappy decoders) to the uncompressed serialization. distinct_nontrivial = frames with >= 2 optional fields or compression, multi-statement batches, refusals, small requests.");
     r.set_exhaustive(true);
     r.sample(json!({"leg":"qe","kind":0,"subset":63,"vals":7,"cons":6,"text":2,"tracing":true,"comp":1,"meaning":"QUERY with all six optional fields, two values (null, value), LOCAL_QUORUM, LZ4, tracing"}));
     r.sample(json!({"leg":"batch","btype":0,"stmts":[[false,1],[true,2]],"count_mode":1,"meaning":"2 statements, 1 value list: must be refused"}));
